@@ -49,6 +49,8 @@ def check(ctx, tier):
     obs += o_glob
     obs += ctx.attempt(lambda c, cl: plumb.exclusive_source(c, cl, "rdflib_graph")[0], ctx, "D-d", default=[])
     obs += ctx.attempt(prefix_choice_table, ctx, "D-e", default=[])
+    o_rdf, n_rdf = ctx.attempt(det.rdflib_iteration, ctx, "D-f", default=([], 0))
+    obs += o_rdf
     exceptions.apply(obs)
     return {"obs": obs, "floors": [Floor("set constructions examined", n_sets, 10), Floor("other nondeterminism sources", n_src, 2)],
             "explanation": "Every construction of a set (literal, comprehension, set(), set algebra) in the package is followed along copy "
